@@ -11,7 +11,10 @@ thing the interpreter is known to do differently (see `Proofs.Properties.C02`):
   its end yields the value of its last statement instead of null);
 * **arity**: a call of a declared function passes at least the parameters without default and
   at most as many arguments as there are parameters (missing ones are silently null, surplus
-  ones are not evaluated).
+  ones are not evaluated);
+
+and one well-formedness condition every PHP-like language imposes at compile time: the
+parameter names of a function are pairwise distinct.
 -/
 namespace Spec.Ctl
 
@@ -76,8 +79,42 @@ def endsRet : Block → Bool
   | .cons (.ret _) .nil => true
   | .cons _ rest => endsRet rest
 
-def goodFun (funs : List FunDecl) (d : FunDecl) : Bool := goodB funs d.body && endsRet d.body
+def goodFun (funs : List FunDecl) (d : FunDecl) : Bool :=
+  goodB funs d.body && (endsRet d.body && decide (d.params.map (·.name)).Nodup)
 
 def inFragment (p : Prog) : Bool := p.funs.all (goodFun p.funs) && goodB p.funs p.main
+
+/-! `closedS k st`: with `k` breakable constructs (loops, switches) around `st`, every `break n` /
+`continue n` in `st` names an existing one: 1 ≤ n ≤ (its nesting depth inside `st`) + `k`. -/
+mutual
+def closedS : Nat → Stmt → Bool
+  | _, .echo _ => true
+  | _, .expr _ => true
+  | k, .ite _ t elifs els => closedB k t && (closedElifs k elifs && closedB k els)
+  | k, .while_ _ b => closedB (k+1) b
+  | k, .doWhile b _ => closedB (k+1) b
+  | k, .for_ _ _ _ b => closedB (k+1) b
+  | k, .foreach _ _ _ b => closedB (k+1) b
+  | k, .switch _ cases dflt => closedCases (k+1) cases && closedB (k+1) dflt
+  | k, .brk n => decide (1 ≤ n) && decide (n ≤ k)
+  | k, .cont n => decide (1 ≤ n) && decide (n ≤ k)
+  | _, .ret _ => true
+def closedB : Nat → Block → Bool
+  | _, .nil => true
+  | k, .cons s rest => closedS k s && closedB k rest
+def closedElifs : Nat → ElseIfs → Bool
+  | _, .nil => true
+  | k, .cons _ b rest => closedB k b && closedElifs k rest
+def closedCases : Nat → Cases → Bool
+  | _, .nil => true
+  | k, .cons _ b rest => closedB k b && closedCases k rest
+end
+
+/-- an outcome that leaves at most `k` constructs -/
+def OutLe (k : Nat) : Out → Prop
+  | .brk m => 1 ≤ m ∧ m ≤ k
+  | .cont m => 1 ≤ m ∧ m ≤ k
+  | _ => True
+
 
 end Spec.Ctl
